@@ -639,6 +639,7 @@ fn sweep_asres(sw: &mut Sweep, r: &AsResources, fx: &Fixed) {
 fn sweep_ipblocks(sw: &mut Sweep, b: &IpBlocks, v4: bool, fx: &Fixed) {
     let iss = if v4 { &fx.iss_v4 } else { &fx.iss_v6 };
     sw.see(b.is_empty());
+    let total = b.iter().count();
     let mut n = 0usize;
     for blk in b.iter() {
         n += 1;
@@ -654,8 +655,13 @@ fn sweep_ipblocks(sw: &mut Sweep, b: &IpBlocks, v4: bool, fx: &Fixed) {
             sw.show(&blk.display_v6());
         }
         sw.enc(blk.encode());
-        sw.see(b.contains_block(blk));
-        sw.see(b.intersects_block(blk));
+        // both look a block up by scanning from the front: asking for every
+        // block of a long list would be a quadratic of the harness's own
+        // making, so long lists are probed at every 16th block and at the end
+        if total <= 512 || n % 16 == 1 || n + 8 > total {
+            sw.see(b.contains_block(blk));
+            sw.see(b.intersects_block(blk));
+        }
         match blk {
             IpBlock::Prefix(p) => {
                 sw.see(p.addr());
@@ -1388,45 +1394,44 @@ pub fn evaluate(ep: Ep, data: &[u8], o: &Opts) -> Outcome {
             }
         }
         Ep::IpResDer | Ep::IpResBer => {
+            // every public decoder of the IP resources module on the same
+            // bytes, one after the other: decode, sweep, drop (keeping all
+            // five values alive at once would be the harness's memory, not
+            // the library's)
             let m = mode(ep == Ep::IpResBer);
-            let fam = m.decode(data, IpResources::take_families_from);
-            let v4 = m.decode(data, |c| IpResources::take_from(c, AddressFamily::Ipv4));
-            let v6 = m.decode(data, |c| IpResources::take_from(c, AddressFamily::Ipv6));
-            let plain = m.decode(data, IpBlocks::take_from);
-            let wf = m.decode(data, |c| IpBlocks::take_from_with_family(c, AddressFamily::Ipv4));
             let mut any = false;
-            if let Ok((a, b)) = &fam {
-                any = true;
-                if let Some(a) = a {
-                    sweep_ipres(&mut sw, a, true, fx);
+            let mut first_err = None;
+            match m.decode(data, IpResources::take_families_from) {
+                Ok((a, b)) => {
+                    any = true;
+                    if let Some(a) = &a {
+                        sweep_ipres(&mut sw, a, true, fx);
+                    }
+                    if let Some(b) = &b {
+                        sweep_ipres(&mut sw, b, false, fx);
+                    }
                 }
-                if let Some(b) = b {
-                    sweep_ipres(&mut sw, b, false, fx);
-                }
+                Err(e) => first_err = Some(e),
             }
-            if let Ok(r) = &v4 {
+            if let Ok(r) = m.decode(data, |c| IpResources::take_from(c, AddressFamily::Ipv4)) {
                 any = true;
-                sweep_ipres(&mut sw, r, true, fx);
+                sweep_ipres(&mut sw, &r, true, fx);
             }
-            if let Ok(r) = &v6 {
+            if let Ok(r) = m.decode(data, |c| IpResources::take_from(c, AddressFamily::Ipv6)) {
                 any = true;
-                sweep_ipres(&mut sw, r, false, fx);
+                sweep_ipres(&mut sw, &r, false, fx);
             }
-            if let Ok(b) = &plain {
+            if let Ok(b) = m.decode(data, IpBlocks::take_from) {
                 any = true;
-                sweep_ipblocks(&mut sw, b, false, fx);
+                sweep_ipblocks(&mut sw, &b, false, fx);
             }
-            if let Ok(b) = &wf {
+            if let Ok(b) = m.decode(data, |c| IpBlocks::take_from_with_family(c, AddressFamily::Ipv4)) {
                 any = true;
-                sweep_ipblocks(&mut sw, b, true, fx);
+                sweep_ipblocks(&mut sw, &b, true, fx);
             }
-            if any {
-                Outcome::ok(sw)
-            } else {
-                match fam {
-                    Err(e) => Outcome::err(e),
-                    Ok(_) => Outcome::ok(sw),
-                }
+            match (any, first_err) {
+                (false, Some(e)) => Outcome::err(e),
+                _ => Outcome::ok(sw),
             }
         }
         Ep::MftContentDer | Ep::MftContentBer => {
@@ -1493,6 +1498,78 @@ pub fn evaluate(ep: Ep, data: &[u8], o: &Opts) -> Outcome {
                 sw.ber = false;
             }
             dec!(Mode::Der.decode(data, Name::take_from), |v| { sweep_name(&mut sw, &v) })
+        }
+    }
+}
+
+//------------ decode only ---------------------------------------------------
+
+/// The decoding step of `evaluate` alone: every decoder `evaluate` tries for
+/// this entry point, on the same bytes, the values dropped at once and no
+/// accessor touched. Returns whether any of them produced a value. Used by
+/// the scaling workload (c04_scale.rs), which measures the cost of decoding
+/// apart from the cost of the accessor sweep.
+pub fn decode_only(ep: Ep, data: &[u8]) -> bool {
+    let mode = |ber: bool| if ber { Mode::Ber } else { Mode::Der };
+    match ep {
+        Ep::Cert => black_box(Cert::decode(data)).is_ok(),
+        Ep::Crl => black_box(Crl::decode(data)).is_ok(),
+        Ep::MftStrict | Ep::MftRelaxed => black_box(Manifest::decode(data, ep == Ep::MftStrict)).is_ok(),
+        Ep::RoaStrict | Ep::RoaRelaxed => black_box(Roa::decode(data, ep == Ep::RoaStrict)).is_ok(),
+        Ep::AspaStrict | Ep::AspaRelaxed => black_box(Aspa::decode(data, ep == Ep::AspaStrict)).is_ok(),
+        Ep::RtaStrict | Ep::RtaRelaxed => black_box(Rta::decode(data, ep == Ep::RtaStrict)).is_ok(),
+        Ep::SigObjStrict | Ep::SigObjRelaxed => black_box(SignedObject::decode(data, ep == Ep::SigObjStrict)).is_ok(),
+        Ep::Tal => {
+            let mut rd = data;
+            black_box(Tal::read("c04.tal", &mut rd)).is_ok()
+        }
+        Ep::PubKey => black_box(PublicKey::decode(data)).is_ok(),
+        Ep::CaCsr => black_box(RpkiCaCsr::decode(data)).is_ok(),
+        Ep::BgpsecCsr => black_box(BgpsecCsr::decode(data)).is_ok(),
+        Ep::IdCert => black_box(IdCert::decode(data)).is_ok(),
+        Ep::SigMsgStrict | Ep::SigMsgRelaxed => black_box(SignedMessage::decode(data, ep == Ep::SigMsgStrict)).is_ok(),
+        Ep::ProvCms => black_box(ProvisioningCms::decode(data)).is_ok(),
+        Ep::PubCms => black_box(PublicationCms::decode(data)).is_ok(),
+        Ep::AsResDer | Ep::AsResBer => {
+            let m = mode(ep == Ep::AsResBer);
+            let a = black_box(m.decode(data, AsResources::take_from)).is_ok();
+            let b = black_box(m.decode(data, AsBlocks::take_from)).is_ok();
+            a || b
+        }
+        Ep::IpResDer | Ep::IpResBer => {
+            let m = mode(ep == Ep::IpResBer);
+            let a = black_box(m.decode(data, IpResources::take_families_from)).is_ok();
+            let b = black_box(m.decode(data, |c| IpResources::take_from(c, AddressFamily::Ipv4))).is_ok();
+            let c = black_box(m.decode(data, |c| IpResources::take_from(c, AddressFamily::Ipv6))).is_ok();
+            let d = black_box(m.decode(data, IpBlocks::take_from)).is_ok();
+            let e = black_box(m.decode(data, |c| IpBlocks::take_from_with_family(c, AddressFamily::Ipv4))).is_ok();
+            a || b || c || d || e
+        }
+        Ep::MftContentDer | Ep::MftContentBer => {
+            black_box(mode(ep == Ep::MftContentBer).decode(data, ManifestContent::take_from)).is_ok()
+        }
+        Ep::CrlTbsDer | Ep::CrlTbsBer => {
+            let m = mode(ep == Ep::CrlTbsBer);
+            let a = black_box(m.decode(data, TbsCertList::take_from)).is_ok();
+            let b = black_box(m.decode(data, RevokedCertificates::take_from)).is_ok();
+            let c = black_box(m.decode(data, CrlEntry::take_from)).is_ok();
+            a || b || c
+        }
+        Ep::Time => {
+            let a = black_box(Mode::Der.decode(data, Time::take_from)).is_ok();
+            let b = black_box(Mode::Ber.decode(data, |c| Time::take_opt_from(c))).is_ok();
+            let c = black_box(Mode::Der.decode(data, Validity::take_from)).is_ok();
+            a || b || c
+        }
+        Ep::Serial => {
+            let a = black_box(Mode::Ber.decode(data, Serial::take_from)).is_ok();
+            let b = black_box(Mode::Der.decode(data, Serial::take_from)).is_ok();
+            a || b
+        }
+        Ep::Name => {
+            let a = black_box(Mode::Ber.decode(data, Name::take_from)).is_ok();
+            let b = black_box(Mode::Der.decode(data, Name::take_from)).is_ok();
+            a || b
         }
     }
 }
